@@ -267,6 +267,31 @@ func verifyFunction(prog *ssa.Program, fset *token.FileSet, cs *ContractSet, fn 
 		}()
 	}
 	wg.Wait()
+	// second chance with a longer budget for a few obligations left undecided under load
+	var again []int
+	for i, d := range res {
+		if d.Res.Status == "timeout" || d.Res.Status == "unknown" || d.Res.Status == "cancelled" {
+			again = append(again, i)
+		}
+	}
+	if len(again) <= 6 {
+		var wg2 sync.WaitGroup
+		sem2 := make(chan struct{}, 2)
+		for _, i := range again {
+			i := i
+			wg2.Add(1)
+			sem2 <- struct{}{}
+			go func() {
+				defer wg2.Done()
+				defer func() { <-sem2 }()
+				d := res[i]
+				d2 := discharge(x.oblOrder[i], fmt.Sprintf("%s.%d.retry", opts.Tag, i), opts.Timeout*3, opts.Thorough, values)
+				d2.Res.Tried = append(append([]string{}, d.Res.Tried...), append([]string{"retry:"}, d2.Res.Tried...)...)
+				res[i] = d2
+			}()
+		}
+		wg2.Wait()
+	}
 	fr.Obligations = res
 	return fr
 }
